@@ -444,10 +444,10 @@ pub fn gen_good(rng: &mut Rng, cfg: &GenCfg) -> Good {
     g
 }
 
-pub const BAD_CLASSES: [&str; 17] = [
+pub const BAD_CLASSES: [&str; 18] = [
     "missing_desc", "missing_props", "missing_cp", "only_cp", "blank", "bad_prop_single", "bad_prop_left", "bad_prop_right",
     "bad_cp_empty", "bad_cp_nonhex", "bad_cp_too_big", "bad_cp_dangling_lo", "bad_cp_dangling_hi", "bad_cp_overlong",
-    "bad_prop_or_shape", "two_defects", "bad_prop_empty",
+    "bad_prop_or_shape", "two_defects", "bad_prop_empty", "mutated_field",
 ];
 
 fn no_comma(s: &str) -> String {
@@ -508,6 +508,102 @@ pub fn bad_name(rng: &mut Rng) -> String {
         };
         if !n.is_empty() && !NAMES.contains(&n.as_str()) && !n.contains(',') && !n.contains(" or ") {
             return n;
+        }
+    }
+}
+
+/// What the registry grammar says about a whole row text, independently of the parser:
+/// `Some(true)` well-formed, `Some(false)` malformed, `None` not settled by C17 (letter case of
+/// the digits, fewer than 4 or more than 6 digits, a reversed range, a surrogate, white space at
+/// the edge of a field or other than one space around `or`).
+pub fn grammar_verdict(text: &str) -> Option<bool> {
+    let f: Vec<&str> = text.splitn(3, ',').collect();
+    if f.len() != 3 {
+        return Some(false);
+    }
+    let mut gray = false;
+    for x in &f[..2] {
+        if x.trim() != *x {
+            gray = true;
+        }
+    }
+    // one bound: Some(Some(v)) value, Some(None) gray, None malformed
+    let bound = |b: &str| -> Option<Option<u32>> {
+        if b.is_empty() || !b.chars().all(|c| c.is_ascii_hexdigit()) {
+            return None;
+        }
+        let t = b.trim_start_matches('0');
+        if t.len() > 6 {
+            return None;
+        }
+        let v = u32::from_str_radix(if t.is_empty() { "0" } else { t }, 16).ok()?;
+        if v > 0x10FFFF {
+            return None;
+        }
+        if b.chars().any(|c| c.is_ascii_lowercase()) || b.len() < 4 || b.len() > 6 || (0xD800..=0xDFFF).contains(&v) {
+            return Some(None);
+        }
+        Some(Some(v))
+    };
+    let cps = f[0].trim();
+    let cps_ok = match cps.split_once('-') {
+        None => bound(cps).map(|v| v.is_some()),
+        Some((a, b)) => match (bound(a), bound(b)) {
+            (Some(Some(x)), Some(Some(y))) => Some(x <= y),
+            (Some(_), Some(_)) => Some(false),
+            _ => None,
+        },
+    };
+    // Some(true) fine, Some(false) gray, None malformed
+    let props = f[1].trim();
+    let props_ok = if NAMES.contains(&props) {
+        Some(true)
+    } else if let Some((a, b)) = props.split_once(" or ") {
+        if NAMES.contains(&a) && NAMES.contains(&b) {
+            Some(true)
+        } else if NAMES.contains(&a.trim()) && NAMES.contains(&b.trim()) {
+            Some(false)
+        } else {
+            None
+        }
+    } else {
+        // other white space around a lower-case `or` between two legal names: not settled
+        let w: Vec<&str> = props.split_whitespace().collect();
+        if w.len() == 3 && w[1] == "or" && NAMES.contains(&w[0]) && NAMES.contains(&w[2]) { Some(false) } else { None }
+    };
+    match (cps_ok, props_ok) {
+        (None, _) | (_, None) => Some(false),
+        (Some(true), Some(true)) if !gray => Some(true),
+        _ => None,
+    }
+}
+
+/// One or two character edits inside the code point field or the property field of a good row,
+/// kept only if the registry grammar calls the result malformed.
+fn mutate_field(rng: &mut Rng, g: &Good) -> String {
+    const ALPHABET: &[char] = &['0', '1', '9', 'A', 'F', 'G', 'Z', 'O', 'a', 'f', 'g', 'o', 'r', '+', '-', '-', ' ', '_', '.', ',', '\t', '\u{a0}', '\u{ff10}', '\u{661}', '\u{0}', ':', ';', '/', '*',
+        'P', 'V', 'L', 'I', 'D', 'E', 'S', 'C', 'N', 'T', 'X', 'J', 'U', 'R', '\u{2013}', '\u{e9}', '\u{1d7d8}'];
+    loop {
+        let mut fields = [g.cps_text(), g.props_text()];
+        let which = rng.usize_below(2);
+        let mut c: Vec<char> = fields[which].chars().collect();
+        for _ in 0..1 + rng.usize_below(2) {
+            if c.is_empty() {
+                break;
+            }
+            let i = rng.usize_below(c.len());
+            match rng.below(5) {
+                0 => { c.remove(i); }
+                1 => { let a = *rng.pick(ALPHABET); c.insert(i + rng.usize_below(2), a); }
+                2 => { c[i] = *rng.pick(ALPHABET); }
+                3 => { if i + 1 < c.len() { c.swap(i, i + 1); } }
+                _ => { let x = c[i]; c.insert(i, x); }
+            }
+        }
+        fields[which] = c.into_iter().collect();
+        let text = format!("{},{},{}", fields[0], fields[1], g.desc);
+        if grammar_verdict(&text) == Some(false) {
+            return text;
         }
     }
 }
@@ -595,6 +691,7 @@ pub fn gen_bad(rng: &mut Rng, cfg: &GenCfg) -> Body {
             let shapes = [format!("{} OR {}", a, b), format!("{} Or {}", a, b), format!("{} oR {}", a, b), format!("{} or", a), format!("or {}", a), format!("{} or or {}", a, b), format!("{} or {} or {}", a, b, a), format!("{} {}", a, b), format!("{}or{}", a, b), format!("{} or {},", a, b).trim_end_matches(',').to_string() + " or"];
             format!("{},{},{}", g.cps_text(), shapes[rng.usize_below(shapes.len())], g.desc)
         }
+        17 => mutate_field(rng, &g),
         15 => {
             // two fields wrong at once: still an error, whichever is noticed first
             let junk = ["ghy0141", "110000", "0041-", "", "-0041"];
